@@ -1,7 +1,7 @@
 """C02 — a proposal's reported density is the law of its jumps; symmetric is symmetric;
 the reported density depends on the two points and the current settings only.
 
-proof:   EpsieProps/C02.lean (32 theorems C02_*: rejection loops, cell discretisation,
+proof:   EpsieProps/C02.lean (33 theorems C02_*: rejection loops, cell discretisation,
          telescoping normalisers, truncation points = acceptance set, wrapped difference,
          dot product / rotation, chord parametrisation, birth parametrisations,
          cache coherence for per-parameter dicts + counterexample for one shared dict,
